@@ -1167,6 +1167,38 @@ fn directed(t: &mut Trace, rng: &mut Rng) {
     s.raw_del(t, 8, 5, 1);
     s.verify_op(t, 11);
 
+    // a topic gained through update_issuer_claim_topics (in both address orders), then the issuer listed
+    // BEFORE it is de-listed (removed / narrowed): its claim must stop counting at once
+    for (hi, lo) in [(4usize, 5usize), (5, 4), (4, 6), (6, 4)] {
+        for narrow in [false, true] {
+            t.seq(&format!("directed topic gained by update, earlier issuer de-listed hi={} lo={} narrow={}", hi, lo, narrow));
+            let mut s = Sim::new();
+            setup_basic(&mut s, t);
+            s.add_topic(t, 0, 1);
+            s.add_topic(t, 0, 2);
+            s.add_issuer(t, 0, hi, &[1, 2]);
+            s.add_issuer(t, 0, lo, &[2]);
+            s.update_issuer(t, 0, lo, &[2, 1]);
+            s.allow_key(t, hi, 1, ED25519, 0, 1);
+            let a = s.good_claim(hi, 8, 1, 1, TS0 + 5000, b"a", rng);
+            s.add_claim(t, 8, &a);
+            s.remove_topic(t, 0, 2);
+            s.verify_op(t, 11); // hi's claim counts
+            if narrow {
+                s.update_issuer(t, 0, hi, &[2]);
+            } else {
+                s.remove_issuer(t, 0, hi);
+            }
+            s.verify_op(t, 11); // hi no longer trusted for topic 1
+            s.allow_key(t, lo, 2, ED25519, 0, 1);
+            let b = s.good_claim(lo, 8, 1, 2, TS0 + 5000, b"b", rng);
+            s.add_claim(t, 8, &b);
+            s.verify_op(t, 11); // lo's claim counts
+            s.remove_issuer(t, 0, lo);
+            s.verify_op(t, 11);
+        }
+    }
+
     // (3a') an issuer that answers is_claim_valid with a bool instead of returning unit / panicking
     // (index 7): a completed call is not a confirmation — its claims never count, whatever it answers
     t.seq("directed non-conforming issuer");
